@@ -207,6 +207,7 @@ impl Scenario {
         let (k, torn, kind) = match &mode {
             Mode::CrashAt { k, torn } => (*k, *torn, None),
             Mode::FailAt { k, kind } => (*k, false, Some(*kind)),
+            Mode::FailAtPair { k, kind, .. } => (*k, false, Some(*kind)),
             _ => (usize::MAX, false, None),
         };
         // 1000x the fault-free length, plus room for conserve's walk down the band numbers
